@@ -34,6 +34,11 @@ def call_clauses(chk, I, mod, cls, kind):
     func, results = R.run_call(I, mod, cls, kind)
     is_un = mod == R.UN
     for pi, (path, out, obls, writes, cur) in enumerate(results):
+        for nm, pc, goal in obls:
+            if nm.startswith("loop-"):
+                chk.add(Ob(func, nm, f"p{pi}", pc, goal))
+        if out.kind == "end":
+            continue
         _call_one(chk, func, kind, is_un, pi, path, out, cur)
     chk.add(Ob(func, "cover", "pre", results[0][0].hyps, z3.BoolVal(True), expect="sat"))
 
@@ -41,6 +46,11 @@ def call_clauses(chk, I, mod, cls, kind):
 def _call_one(chk, func, kind, is_un, pi, path, out, cur):
     pid, hy = f"p{pi}", path.hyps
     val, slf = cur["val"], cur["self"]
+    if out.kind == "raise" and out.exc.exc_cls is ValueError and is_un and kind in ("fixedtuple", "structured"):
+        # the routine rejects an input that cannot satisfy the target (too few members / missing required key)
+        for nm in CALL_CLAUSES:
+            chk.add(Ob(func, nm, pid, hy, z3.BoolVal(True), {"trivial": True, "note": "input rejected with ValueError"}))
+        return
     if out.kind != "ret":
         _fail_all(chk, func, CALL_CLAUSES, pid, hy,
                   {"outcome": out.kind, "why": str(out.value if out.kind == "unsupported" else out.exc.exc_cls)})
